@@ -76,6 +76,7 @@ def replay(ccfg: dict, events: list[dict], n_calls: int, entry: str = "AsyncPoli
         pol = rp.AsyncPolicy(circuit_breaker=breaker)
         coros: dict[int, object] = {}
         outcome: dict[int, dict] = {}
+        shared_exc: dict[str, BaseException] = {}     # calls of one behaviour raise the very same object
         preabort = {e["i"] for e in events if e["e"] == "crec" and e.get("pre")}
 
         def make_op(i):
@@ -86,10 +87,12 @@ def replay(ccfg: dict, events: list[dict], n_calls: int, entry: str = "AsyncPoli
                 if o["out"] == "ok":
                     return i
                 if o["out"] == "exc":
-                    e = OpErr("x")
-                    code = STATUS.get(o["k"])
-                    if code is not None:
-                        e.status = code
+                    e = shared_exc.get(o["k"])
+                    if e is None:
+                        e = shared_exc[o["k"]] = OpErr("x")
+                        code = STATUS.get(o["k"])
+                        if code is not None:
+                            e.status = code
                     raise e
                 if o["out"] == "abort":
                     raise AbortRetryError()
@@ -149,7 +152,7 @@ def full(ccfg: dict) -> dict:
     return {"bc": bc, "abort": ccfg["abort"]}
 
 
-def check_into(rep: Report, tier: str) -> None:
+def check_into(rep: Report, tier: str, prop: str = "C07") -> None:
     mc = run_tlc("PolicyConc.tla", pick_cfg("PolicyConc_mc", tier), tag="conc-mc", timeout=3000)
     if not mc.ok:
         raise Machinery(f"PolicyConc: M violates more than the known clauses: {mc.violated}\n{mc.output[-2500:]}")
@@ -174,16 +177,16 @@ def check_into(rep: Report, tier: str) -> None:
         traces.append({"cfg": full(ccfg), "n": n_calls, "ev": obs, "predicted": b["h"]})
     verdicts = tlc_validate("ConcTrace", traces, "conc", keys=("cfg", "n", "ev"))
     for t, v in zip(traces, verdicts):
-        mine = sorted(c for c in v["viol"] if c.startswith("C07:"))
+        mine = sorted(c for c in v["viol"] if c.startswith(prop + ":"))
         if mine:
-            rep.add_violation(mine[0], f"C07/concurrent/{mine[0].split(':', 1)[1]}", {
+            rep.add_violation(mine[0], f"{prop}/concurrent/{mine[0].split(':', 1)[1]}", {
                 "level": "N concurrently running AsyncPolicy.execute() calls sharing one breaker",
                 "cfg": t["cfg"], "interleaving_and_observations": t["ev"], "clauses": mine,
                 "predicted_by_M": t["predicted"],
                 "how": "harness.conccheck.replay(cfg, events, n): calls are started / finished in the "
                        "order of the callow/crec/cinvoke events"})
         elif v["conf"]:
-            rep.drift.append("concurrent trace differs from M but no C07 clause is violated")
+            rep.drift.append(f"concurrent trace differs from M but no {prop} clause is violated")
     # canary: double admission during a probe without any disturbance must be flagged as new
     b0 = next(b for b in behs if any(e["e"] == "callow" and e["state"] == "half" for e in b["h"]))
     bad = [dict(e) for e in b0["h"]]
